@@ -169,8 +169,9 @@ static ares_status_t parse_sort(ares_buf_t *buf, struct apattern *pat)
     }
 
     if (ares_str_isnum(maskstr)) {
-      /* Numeric mask */
-      int mask = atoi(maskstr);
+      /* Numeric mask: at most 3 digits, anything longer is out of range and
+       * would not even fit an int */
+      int mask = ares_strlen(maskstr) > 3 ? 129 : atoi(maskstr);
       if (mask < 0 || mask > 128) {
         return ARES_EBADSTR;
       }
